@@ -120,7 +120,7 @@ class Runner:
         self.extra_cov = extra_cov or {}
         self.assumptions = list(assumptions)
         self.extra_results = list(extra_results)
-        self.work = os.path.join(os.environ.get('VERIF_WORK', os.path.join(VERIF, '.work')), pid)
+        self.work = os.path.join(os.environ.get('VERIF_WORK', os.path.join(VERIF, '.work')), '%s.%s.%d' % (pid, tier, os.getpid()))
         self.replay_dir = os.path.join(VERIF, 'replay_out', pid)
         self.known = load_known()
         self.mem_total = float(os.environ.get('VERIF_MEM_TOTAL_GB', '48'))
